@@ -4,6 +4,7 @@ package main
 
 import (
 	"fmt"
+	"go/printer"
 	"sort"
 	"go/ast"
 	"go/token"
@@ -17,9 +18,48 @@ func (fx *FuncExec) execBlock(st *State, list []ast.Stmt) *State {
 		if st == nil {
 			return nil
 		}
+		if fx.contract != nil && len(fx.contract.After) > 0 {
+			fx.ghostAfter(st, s, true)
+		}
 		st = fx.exec(st, s)
+		if st != nil && fx.contract != nil && len(fx.contract.After) > 0 {
+			fx.ghostAfter(st, s, false)
+		}
 	}
 	return st
+}
+
+// ghostAfter executes the ghost assignments attached to statement s.
+func (fx *FuncExec) ghostAfter(st *State, s ast.Stmt, before bool) {
+	var txt string
+	for _, ac := range fx.contract.After {
+		if ac.Used || ac.Before != before {
+			continue
+		}
+		if txt == "" {
+			var b strings.Builder
+			printer.Fprint(&b, fx.ctx.fset, s)
+			txt = strings.Join(strings.Fields(b.String()), " ")
+		}
+		if !strings.HasPrefix(txt, strings.Join(strings.Fields(ac.Match), " ")) {
+			continue
+		}
+		ac.Used = true
+		comp, ok := fx.reg.ghostVars[ac.Var]
+		if !ok {
+			panic(specError{"after: unknown ghost variable " + ac.Var})
+		}
+		pos := s.End()
+		if before {
+			pos = s.Pos()
+		}
+		env := fx.specEnv(st, fx.entry, pos, "ghost assignment")
+		v := env.tr(ac.Expr)
+		if v.Sort != fx.reg.compSort[comp] {
+			panic(specError{"after: sort mismatch for " + ac.Var + ": " + v.Sort + " vs " + fx.reg.compSort[comp]})
+		}
+		fx.setH(st, comp, v.S)
+	}
 }
 
 func (fx *FuncExec) exec(st *State, s ast.Stmt) *State {
@@ -512,6 +552,13 @@ func (fx *FuncExec) modifiedIn(nodes ...ast.Node) (locals map[*types.Var]bool, c
 	for c := range fx.reg.compSort {
 		if strings.HasPrefix(c, "AL_") {
 			comps[c] = true
+		}
+	}
+	if fx.contract != nil {
+		for _, ac := range fx.contract.After {
+			if comp, ok := fx.reg.ghostVars[ac.Var]; ok {
+				comps[comp] = true
+			}
 		}
 	}
 	return
